@@ -51,7 +51,12 @@ impl Distribution for Gumbel {
     type Output = f64;
     /// Samples from the given Gumbel distribution.
     fn sample(&self) -> Self::Output {
-        self.mu - self.beta * (-self.uniform_gen.sample().ln()).ln()
+        // the generator is uniform on [0, 1): a draw of exactly 0 has no image under the inverse cdf
+        let mut u = self.uniform_gen.sample();
+        while u == 0. {
+            u = self.uniform_gen.sample();
+        }
+        self.mu - self.beta * (-u.ln()).ln()
     }
 }
 
